@@ -13,15 +13,15 @@ That is what every suspension of the machine in `wait_for_progress` looks like
 (`C16_service_leaves_fresh_deadline`); `C10M_example_*` run a program into such a state.
 
 Times are µs; `t` is always the time of the tick that wakes the operation: it is the `now` handed to
-`service(now)` and hence to `complete_flush` (finding F3: the ping timeout is measured from there).
+`service(now)` and hence to `complete_flush` (finding F23: the ping timeout is measured from there).
 
 Limits of what is proved here, stated where they apply:
 * the PINGREQ write decision is taken with `k ≥ 2` (both bytes at once); the fragmentation `1 + 1` goes
   through a second service pass and is not covered;
 * the control queue is assumed empty in `IdleWait` (an acknowledgement still queued means there is
   something to send, so the operation would not be waiting);
-* cadence (4) is proved for one round and for the re-establishment of the round's precondition, not as
-  an induction over a program of unbounded length.
+* cadence (4) is proved here for one round and for the re-establishment of the round's precondition;
+  the induction over schedules of any length is `Theorems/C10Rounds.lean`.
 -/
 namespace Minimq
 open Gen World Outbound
